@@ -11,7 +11,9 @@ import argparse, json, os, re, shutil, subprocess, sys, time
 from concurrent.futures import ThreadPoolExecutor
 from pathlib import Path
 
+import threading
 ROOT = Path(__file__).resolve().parents[1]
+GIT = threading.Lock()     # git worktree add / prune / remove are not safe to run concurrently
 SCRATCH = Path(os.environ.get("VERIF_SCRATCH", "/tmp/vseed"))
 
 
@@ -31,8 +33,9 @@ def one(name, tier, extra_ids, procs):
     verif = base / "verif"
     out = {"name": name, "tier": tier, "checks": {}, "when": time.strftime("%Y-%m-%d %H:%M:%S")}
     try:
-        sh(["git", "-C", "/repo", "worktree", "prune"])
-        p = sh(["git", "-C", "/repo", "worktree", "add", "--detach", str(repo), "HEAD"])
+        with GIT:
+            sh(["git", "-C", "/repo", "worktree", "prune"])
+            p = sh(["git", "-C", "/repo", "worktree", "add", "--detach", str(repo), "HEAD"])
         if p.returncode != 0:
             out["error"] = "worktree: " + p.stdout[-500:]
             return out
@@ -55,9 +58,10 @@ def one(name, tier, extra_ids, procs):
     except subprocess.TimeoutExpired:
         out["error"] = "timeout"
     finally:
-        sh(["git", "-C", "/repo", "worktree", "remove", "--force", str(repo)])
-        shutil.rmtree(base, ignore_errors=True)
-        sh(["git", "-C", "/repo", "worktree", "prune"])
+        with GIT:
+            sh(["git", "-C", "/repo", "worktree", "remove", "--force", str(repo)])
+            shutil.rmtree(base, ignore_errors=True)
+            sh(["git", "-C", "/repo", "worktree", "prune"])
     json.dump(out, open(sd / "result.json", "w"), indent=1)
     return out
 
